@@ -249,9 +249,19 @@ def rule_ids(c, prog):
     ok = False
     # every lookup in the class table is a checked `get` whose miss is an error (ok_or / ok_or_else / `?` / match),
     # never an index or an unwrap
-    gets = [n for n in core.walk_fn(fn) if n.get("k") == "MethodCall" and n["m"] in ("get", "get_mut") and core.place_root(n["recv"])[1][-1:] == ["type_infos"]]
-    idx = [n for n in core.walk_fn(fn) if n.get("k") == "Index" and core.place_root(n["l"])[1][-1:] == ["type_infos"]]
-    unwrapped = [n for n in core.walk_fn(fn) if n.get("k") == "MethodCall" and n["m"] in ("unwrap", "expect") and any(core.strip(n["recv"]) is g for g in gets)]
+    TI_RX = re.compile(r"HashMap<u32, rbx_binary::deserializer::state::TypeInfo\b")
+    gets, idx, unwrapped = [], [], []
+    for f2 in prog.lib_fns():
+        if f2.crate != "rbx_binary" or f2.body is None or "deserializer::state" not in f2.path:
+            continue
+
+        def is_table(e):
+            ty = (e.get("ty") or "") + " " + (e.get("aty") or "")
+            return bool(TI_RX.search(ty)) or core.place_root(e)[1][-1:] == ["type_infos"]
+        g2 = [n for n in core.walk_fn(f2) if n.get("k") == "MethodCall" and n["m"] in ("get", "get_mut") and is_table(n["recv"])]
+        gets += g2
+        idx += [n for n in core.walk_fn(f2) if n.get("k") == "Index" and is_table(n["l"])]
+        unwrapped += [n for n in core.walk_fn(f2) if n.get("k") == "MethodCall" and n["m"] in ("unwrap", "expect") and any(core.strip(n["recv"]) is g for g in g2)]
     ok = bool(gets) and not idx and not unwrapped
     if ok:
         c.ok(R, "class-id:checked-lookup")
